@@ -1,5 +1,6 @@
 import LenaModel.DriverUtil
 import LenaModel.Model.C19
+import LenaModel.Model.C19Spec
 /-! Model driver for C19 (contents = `Content`, converters = `stubConv`).  Requests:
 
   {"op":"mf","args":MF,"name":s|null,"out":O}                      -> {"out":O,"modified":b} | {"e":E,"phase":"init"}
@@ -197,12 +198,36 @@ def runSpec? (j : Json) : Option RunSpec := do
   let layout ← match str? (getD j "layout") with
     | some "separate" => some Layout.separate
     | some "group" => some Layout.group
+    | some "scalars" => some Layout.scalars
     | _ => none
   let tpl ← nat? (getD j "tpl")
   let pls ← arr? (getD j "plots")
   let pls ← pls.toList.mapM plot?
   return { cfg := { outdir := outdir, w1 := w1, w2 := w2, lo := lo, po := po, mf := mf, gmf := gmf },
            layout := layout, tpl := tpl, plots := pls }
+
+/-- the specification side of one run (`Model/C19Spec.lean`): the resolved units, `SourceClosed` of every unit at
+the start, `UnitFresh` of every unit at the end, and whether `specRun` (names first, then the bookkeeping
+`sepCore` / `grpCore`) ends in the same world as the element-by-element pipeline -/
+def specJson (watch : List String) (w0 w' : World Content) (r : RunSpec) : Json :=
+  match runUnits r with
+  | .error e => Json.mkObj [("e", excName e)]
+  | .ok us =>
+    let ofUnit (u : FUnit) : Json := Json.arr #[ofList Json.str u.csvs, u.tex, u.pdf, u.png]
+    let etex (u : FUnit) : Content := effective r.cfg.w2 (w0.fs u.tex) (stubConv.texOf r.tpl u.csvs)
+    let fresh : List Bool := match r.layout with
+      | .separate => (us.zip r.plots).map fun (u, pl) =>
+          unitFreshB stubConv u w'.fs
+            (u.csvs.map fun pc => effective r.cfg.w1 (w0.fs pc) (stubConv.csvOf pl.data)) (etex u)
+      | .group => us.map fun u =>
+          unitFreshB stubConv u w'.fs
+            ((u.csvs.zip r.plots).map fun (pc, pl) => effective r.cfg.w1 (w0.fs pc) (stubConv.csvOf pl.data)) (etex u)
+      | .scalars => []
+    let agrees := match specRun stubConv w0 r with
+      | .ok ws => worldAgree (watch ++ us.flatMap FUnit.paths) ws w'
+      | .error _ => false
+    Json.mkObj [("units", ofList ofUnit us), ("closed", ofList Json.bool (us.map fun u => sourceClosedB u w0.fs)),
+      ("fresh", ofList Json.bool fresh), ("agrees", agrees)]
 
 /-- a history: every step first deletes the files of its "del" (if any) and then runs its "run" (if any);
 the reply lists one entry per run.  With `reuse` one pipeline object (state `st`) serves all runs and the
@@ -230,7 +255,9 @@ def histLoop (reuse : Bool) (watch : List String) : PipeState → World Content 
           | .error e => some ((ofExc e :: acc).reverse)        -- the history stops at an exception
           | .ok (w', vs, st') =>
             let watch' := (watch ++ pathsOfLog w'.log).eraseDups
-            histLoop reuse watch' st' w' rest (ofResult watch' w0.clock w' vs :: acc)
+            let r' : RunSpec := { r with tpl := (getTemplate (if reuse then st else {}) f).1 }
+            let out := (ofResult watch' w0.clock w' vs).setObjVal! "spec" (specJson watch' w0 w' r')
+            histLoop reuse watch' st' w' rest (out :: acc)
 
 /-- `get_template` called for a sequence of states of the template file by one RenderLaTeX object -/
 def renderSeq : PipeState → List (Nat × Nat) → List Nat
@@ -303,6 +330,13 @@ def handle (j : Json) : Json :=
         | none => none) with
     | some fs => Json.mkObj [("r", ofList ofNat (renderSeq {} fs))]
     | none => err "bad render2 args"
+  | some "mglen" =>
+    match nat? (getD j "ndata"), nat? (getD j "ngroup") with
+    | some a, some b =>
+      match mapGroupGuard a b with
+      | .error e => ofExc e
+      | .ok _ => Json.mkObj [("ok", true)]
+    | _, _ => err "bad mglen args"
   | some "gp" =>
     match (arr? (getD j "ms")).bind (fun a => a.toList.mapM optBool?) with
     | some ms => Json.mkObj [("changed", groupPlotsChanged ms)]
